@@ -12,6 +12,7 @@ import (
 func init() {
 	verifHarnesses["HarnessC18AddRow"] = HarnessC18AddRow
 	verifHarnesses["HarnessC18Boundary"] = HarnessC18Boundary
+	verifHarnesses["HarnessC18Block"] = HarnessC18Block
 	verifHarnesses["HarnessC05Boundary"] = HarnessC05Boundary
 	verifHarnesses["HarnessC04Cache"] = HarnessC04Cache
 	verifHarnesses["HarnessC04Queries"] = HarnessC04Queries
@@ -214,6 +215,17 @@ func HarnessC04Queries() {
 		// a NOT over single-operand operators next to a plain read of the same stored value
 		{{e: &ExprNot{Expr: &ExprAnd{Exprs: []Expression{eq("a", "a0")}}}, den: ^a0 & mask}, {e: &ExprOr{Exprs: []Expression{eq("a", "a0")}}, den: a0}},
 	}
+	// two queries built around one shared sub-expression (a filter object reused by the
+	// application), its operands in either order: evaluation only reads the tree
+	for _, ops := range [][]Expression{{eq("a", "a1"), eq("b", "b0")}, {eq("b", "b0"), eq("a", "a1")}} {
+		// quick tier: only the order in which the operands' keys descend (the one a
+		// canonicalisation by key would change); thorough: both
+		if verifTier() == 0 && ops[0].cacheKey() < ops[1].cacheKey() {
+			continue
+		}
+		shared := &ExprAnd{Exprs: ops}
+		pairs = append(pairs, [2]verifExpr{{e: &ExprNot{Expr: shared}, den: ^(a1 & b0) & mask}, {e: &ExprOr{Exprs: []Expression{shared, eq("a", "a0")}}, den: (a1 & b0) | a0}})
+	}
 	pr := pairs[verifChoice("pair", len(pairs))]
 	x1, x2 := pr[0], pr[1]
 	// with or without GROUP BY in both goroutines (first grouped use of a column in flight)
@@ -368,6 +380,65 @@ func HarnessC05Boundary() {
 		return
 	}
 	verifCheckBoundaryRows("C05 big writer, 999..1002 rows", idx, n, verifTag4)
+	idx.Close()
+	verifReach("end")
+}
+
+// HarnessC18Block: row ids cross 65535/65536, where a roaring bitmap starts its second
+// container (work a writer does "once a block of rows is complete" happens here). One
+// goroutine adds 65538 rows to the in-memory writer while a second one adds two more; race
+// detection over all accesses, ids exactly 0..n-1, and the flushed index holds every row.
+func HarnessC18Block() {
+	out := verifTempPath("c18k.updog")
+	w := NewIndexWriter(out)
+	n1, n2 := 65538, 2
+	if !verifSymbolic() {
+		n2 = 20000
+	}
+	ids := make([]uint32, n1+n2)
+	var wg sync.WaitGroup
+	verifPreemptions(0)
+	verifSchedule(true)
+	verifLockset(true)
+	wg.Add(2)
+	go func() {
+		defer wg.Done()
+		for i := 0; i < n1; i++ {
+			id, err := w.AddRow(map[string]string{"a": "x"})
+			if err != nil {
+				panic(err)
+			}
+			ids[i] = id
+		}
+	}()
+	go func() {
+		defer wg.Done()
+		for i := n1; i < n1+n2; i++ {
+			id, err := w.AddRow(map[string]string{"a": "x"})
+			if err != nil {
+				panic(err)
+			}
+			ids[i] = id
+		}
+	}()
+	wg.Wait()
+	verifLockset(false)
+	verifSchedule(false)
+	verifRaceFree("C18: concurrent AddRow calls while row ids cross a 65536-row block")
+	seen := make([]bool, n1+n2)
+	for _, id := range ids {
+		verifAssert(int(id) < n1+n2 && !seen[id], "C18: returned row ids must be exactly 0..n-1 without duplicates")
+		if int(id) < n1+n2 {
+			seen[id] = true
+		}
+	}
+	verifAssert(w.Flush() == nil, "C18: Flush failed")
+	idx, err := OpenIndex(out)
+	verifAssert(err == nil, "C18: the flushed index cannot be opened")
+	if err != nil {
+		return
+	}
+	verifAssert(verifCount(idx, &ExprEqual{Column: "a", Value: "x"}) == uint64(n1+n2), "C18: the index must hold exactly one row per AddRow call")
 	idx.Close()
 	verifReach("end")
 }
